@@ -298,7 +298,9 @@ func (l *List) Accept(sta funcGen.Stack[Value]) (*List, error) {
 		return nil, err
 	}
 	return NewListFromIterable(func(st funcGen.Stack[Value]) iterator.Producer[Value] {
-		return iterator.FilterAuto[Value](l.iterable(st), func() func(v Value) (bool, error) {
+		// If the filter runs in parallel, the items of this list are created in a different
+		// goroutine than the one that consumes the filtered items, so a stack of its own is required.
+		return iterator.FilterAuto[Value](l.iterable(funcGen.NewEmptyStack[Value]()), func() func(v Value) (bool, error) {
 			s := funcGen.NewEmptyStack[Value]()
 			return func(v Value) (bool, error) {
 				eval, err := f.Eval(s, v)
@@ -320,7 +322,9 @@ func (l *List) Map(sta funcGen.Stack[Value]) (*List, error) {
 		return nil, err
 	}
 	return NewListFromSizedIterable(func(st funcGen.Stack[Value]) iterator.Producer[Value] {
-		return iterator.MapAuto[Value, Value](l.iterable(st), func() func(i int, v Value) (Value, error) {
+		// If the map runs in parallel, the items of this list are created in a different
+		// goroutine than the one that consumes the mapped items, so a stack of its own is required.
+		return iterator.MapAuto[Value, Value](l.iterable(funcGen.NewEmptyStack[Value]()), func() func(i int, v Value) (Value, error) {
 			s := funcGen.NewEmptyStack[Value]()
 			return func(i int, v Value) (Value, error) {
 				return f.Eval(s, v)
